@@ -53,6 +53,30 @@ Fixpoint nodupb (l : list pystr) : bool :=
   match l with [] => true | x :: r => negb (existsb (str_eqb x) r) && nodupb r end.
 Definition nonempty (s : pystr) : bool := match s with [] => false | _ => true end.
 
+(* equality of the SCPD-relevant part of two service definitions: what one service description
+   document says (state variables, actions) and what the server does with it (corruption) *)
+Definition svd_eqb (a b : sv_def) : bool :=
+  str_eqb (sd_name a) (sd_name b) && str_eqb (sd_type a) (sd_type b) &&
+  Bool.eqb (sd_attr a) (sd_attr b) && Bool.eqb (sd_evented a) (sd_evented b) &&
+  opt_eqb str_eqb (sd_default a) (sd_default b) &&
+  opt_eqb (fun x y => opt_eqb str_eqb (fst (fst x)) (fst (fst y)) && opt_eqb str_eqb (snd (fst x)) (snd (fst y)) &&
+                      opt_eqb str_eqb (snd x) (snd y)) (sd_range a) (sd_range b) &&
+  opt_eqb (list_eqb str_eqb) (sd_allowed a) (sd_allowed b).
+Definition argd_eqb (a b : arg_def) : bool :=
+  str_eqb (ag_name a) (ag_name b) && Bool.eqb (ag_in a) (ag_in b) && Bool.eqb (ag_retval a) (ag_retval b) &&
+  str_eqb (ag_rsv a) (ag_rsv b).
+Definition actd_eqb (a b : action_def) : bool :=
+  str_eqb (ad_name a) (ad_name b) && list_eqb argd_eqb (ad_args a) (ad_args b).
+Definition corruption_eqb (a b : corruption) : bool :=
+  match a, b with
+  | CNone, CNone | CUnparseable, CUnparseable | CForeignTag, CForeignTag | CForeignRootNs, CForeignRootNs
+  | CForeignNs, CForeignNs | CNoTable, CNoTable => true
+  | _, _ => false
+  end.
+Definition same_scpd (a b : service_def) : bool :=
+  list_eqb svd_eqb (s_vars a) (s_vars b) && list_eqb actd_eqb (s_actions a) (s_actions b) &&
+  corruption_eqb (s_corrupt a) (s_corrupt b).
+
 Section Spec.
   Variable urljoin : pystr -> pystr -> pystr.
   Variable float_of_str : pystr -> option fl.
@@ -208,11 +232,25 @@ Section Spec.
     | DeviceDef h icons svcs subs =>
         forallb (fun c => url_ok (ic_url c)) icons && forallb wf_service svcs && forallb wf_tree subs
     end.
-  (* the server can serve the documents: every service has its own SCPD URL, none is the description URL *)
+  (* the server can serve the documents: one document per SCPD URL.  Services whose SCPD URLs resolve to
+     the same URL (real gateways let WANIPConnection and WANPPPConnection share one SCPD) have the same
+     SCPD-relevant definition - the same state variables, actions and corruption marker - so that the
+     one document served there describes each of them; no SCPD URL is the description URL *)
+  Fixpoint shared_ok (l : list service_def) : bool :=
+    match l with
+    | [] => true
+    | x :: rest =>
+        forallb (fun y => implb (str_eqb (scpd_url urljoin base x) (scpd_url urljoin base y)) (same_scpd x y)) rest &&
+        shared_ok rest
+    end.
   Definition wf_world (d : device_def) : bool :=
-    let urls := map (scpd_url urljoin base) (all_services d) in
-    nodupb urls && negb (existsb (str_eqb base) urls).
-  Definition wf_dev (d : device_def) : bool := wf_tree d && wf_world d.
+    shared_ok (all_services d) &&
+    negb (existsb (str_eqb base) (map (scpd_url urljoin base) (all_services d))).
+  (* the domain of the statement *)
+  Definition wf_desc (d : device_def) : bool := wf_tree d && wf_world d.
+  (* the sub-domain "every service has its own SCPD URL" (what C14's server produces) *)
+  Definition wf_dev (d : device_def) : bool :=
+    wf_desc d && nodupb (map (scpd_url urljoin base) (all_services d)).
 
   (* -------------------------------------------------------------- corruption *)
   Definition corrupt (s : service_def) : bool := match s_corrupt s with CNone => false | _ => true end.
